@@ -1,9 +1,13 @@
 package engines
 
 import (
+	"cosmossdk.io/log"
 	"encoding/hex"
 	"encoding/json"
 	"fmt"
+	"github.com/EscanBE/evermint/v12/indexer"
+	sdkdb "github.com/cosmos/cosmos-db"
+	cmttypes "github.com/cometbft/cometbft/types"
 	"math"
 	"math/big"
 	"strings"
@@ -62,6 +66,7 @@ func TestEngineCrash(t *testing.T) {
 	c.setupDone()
 	c.finalize(nil)
 	txCfg := c.s.EncodingConfig.TxConfig
+	kvIndexer := indexer.NewKVIndexer(sdkdb.NewMemDB(), log.NewNopLogger(), c.s.QueryClientsAt(0).ClientQueryCtx)
 
 	randBytes := func(k int) []byte {
 		b := make([]byte, k)
@@ -427,6 +432,23 @@ func TestEngineCrash(t *testing.T) {
 			return res.Status.String()
 		})
 		res := finalizeGuarded(all, txs)
+		if res != nil {
+			// the EVM indexer service indexes every committed block in a goroutine without recovery
+			blk := &cmttypes.Block{Header: cmttypes.Header{Height: c.app.LastBlockHeight()}, Data: cmttypes.Data{}}
+			for _, tx := range txs {
+				blk.Data.Txs = append(blk.Data.Txs, cmttypes.Tx(tx))
+			}
+			var joined []byte
+			for _, tx := range txs {
+				joined = append(joined, tx...)
+			}
+			sentinel("indexer", all, joined, func() string {
+				if err := kvIndexer.IndexBlock(blk, res.TxResults); err != nil {
+					return "error"
+				}
+				return "ok"
+			})
+		}
 		if res != nil {
 			for j, tr := range res.TxResults {
 				p.Emit(fmt.Sprintf("crash deliver class=%s", strings.ReplaceAll(classes[j], " ", "_")), "deliver="+codeOf(tr.Code))
